@@ -99,8 +99,9 @@ def get_mod_nodes_remove_incompatibilities(
         return set()
 
     # Remove nodes derived from incompatible target nodes
-    if removed_edges is None:
-        removed_edges = set()
+    # (work on a copy: if the constraints turn out to be unresolvable, the caller's set must not contain the edges of
+    # confirmed nodes)
+    removed_edges = set(removed_edges) if removed_edges is not None else set()
     for edge in confirmed_incompatibility_edges:
         # If this is the target edge, do not remove the derived nodes
         if edge[1] in confirmed_nodes:
